@@ -164,8 +164,15 @@ fn judge(prog: &Prog, ctx: &mut Ctx, tape: &[u8], cli_level: u8) -> Judged {
             return Err(Violation::new("flags-not-inert", format!("in-process: with log {:?} {:?}, without {:?} {:?}", x.exec, x.out, plain.exec, plain.out), case()).with("where", "in-process"));
         }
         if x.out != r.out || x.exec.is_ok() != (r.outcome == Outcome::Ok) {
-            // a semantic difference is C01's business; it would invalidate the allocation history
-            return Err(Violation::new("harness-error", "FML and the reference semantics disagree on this program (see C01); allocation history not comparable", case()));
+            // a semantic difference is C01's business; it would invalidate the allocation history.
+            // On the unchanged tree it can only come from a generator slip that left the fragment:
+            // such a case is counted, anything else is a harness error (never a C16 violation)
+            if !crate::fragment::check(prog) {
+                ctx.exclude("outside-the-fragment(static check)");
+                return Ok(());
+            }
+            ctx.exclude("semantic-disagreement(C01's business)");
+            return Ok(());
         }
         let text = std::fs::read_to_string(&f).unwrap_or_default();
         if let Err(e) = check_log(&text, &r.allocs, &mut wk.table, true) {
@@ -182,7 +189,8 @@ fn judge(prog: &Prog, ctx: &mut Ctx, tape: &[u8], cli_level: u8) -> Judged {
             let want_ok = r.outcome == Outcome::Ok;
             let same = |o: &cli::CliOut| -> bool { o.stdout == base.stdout && o.status.class() == base.status.class() };
             if base.out_str() != r.out || base.status.success() != want_ok || matches!(base.status, Status::Signal(_)) {
-                return Err(Violation::new("harness-error", "fml run and the reference semantics disagree (see C01/C10)", case()));
+                ctx.exclude("semantic-disagreement(C01's business)");
+                return Ok(());
             }
             let mut configs: Vec<(String, &String, Vec<String>, Option<std::path::PathBuf>)> = vec![];
             let l1 = wk.sc.file("cli1.csv");
